@@ -656,8 +656,8 @@ def makerandCIJdegreesfixed(inv, outv, seed=None):
 
     n = len(inv)
     k = np.sum(inv)
-    in_inv = np.zeros((k,))
-    out_inv = np.zeros((k,))
+    in_inv = np.zeros((k,), dtype=int)
+    out_inv = np.zeros((k,), dtype=int)
     i_in = 0
     i_out = 0
 
@@ -683,8 +683,7 @@ def makerandCIJdegreesfixed(inv, outv, seed=None):
                     switch = rng.randint(k)
                 if not (CIJ[edges[0, i], edges[1, switch]] or
                         CIJ[edges[0, switch], edges[1, i]]):
-                    CIJ[edges[0, switch], edges[1, switch]] = 0
-                    CIJ[edges[0, switch], edges[1, i]] = 1
+                    CIJ[edges[0, i], edges[1, switch]] = 1
                     if switch < i:
                         CIJ[edges[0, switch], edges[1, switch]] = 0
                         CIJ[edges[0, switch], edges[1, i]] = 1
@@ -761,6 +760,7 @@ def makerandCIJ_und(n, k, seed=None):
 
     CIJ = np.zeros((n, n))
     CIJ.flat[ix[rp][:k]] = 1
+    CIJ = CIJ + CIJ.T
     return CIJ
 
 
@@ -801,9 +801,9 @@ def makeringlatticeCIJ(n, k, seed=None):
 
     # fill in
     while kk < k:
-        count += 1
         dCIJ = np.triu(CIJ1, seq[count]) - np.triu(CIJ1, seq[count] + 1)
         dCIJ2 = np.triu(CIJ1, seq2[count]) - np.triu(CIJ1, seq2[count] + 1)
+        count += 1
         dCIJ = dCIJ + dCIJ.T + dCIJ2 + dCIJ2.T
         CIJ += dCIJ
         kk = int(np.sum(CIJ))
